@@ -20,6 +20,7 @@ Suites
 import importlib
 import inspect
 import os
+import sys
 import re
 import shutil
 import warnings
@@ -648,7 +649,9 @@ def suite_e2e(ctx):
             if variant != 'noise' and fn == 'forward':
                 cfg += "[noise_opts]\nadd_noise = False\n"
                 ent += [('noise_opts', 'add_noise', 'False')]
-            cf = os.path.join(d, 'emg3d.cfg')
+            # (not the default name for the run that goes through sys.argv)
+            cf = os.path.join(d, 'settings.cfg' if variant == 'plain'
+                              else 'emg3d.cfg')
             open(cf, 'w').write(cfg)
             os.chdir(d)
             err = None
@@ -659,7 +662,16 @@ def suite_e2e(ctx):
                         main.main([cf, '--'+fn, '-q'] + pre)
                         if os.path.exists(os.path.join(d, f'out.{fmt}')):
                             os.remove(os.path.join(d, f'out.{fmt}'))
-                    main.main([cf, '-q'] + args)
+                    if variant == 'plain':
+                        # the console entry point: arguments from sys.argv
+                        argv0 = sys.argv
+                        sys.argv = ['emg3d', cf, '-q'] + args
+                        try:
+                            main.main()
+                        finally:
+                            sys.argv = argv0
+                    else:
+                        main.main([cf, '-q'] + args)
                 except BaseException as e:      # noqa
                     err = f'{type(e).__name__}: {e}'
             os.chdir(cwd0)
